@@ -81,6 +81,23 @@ def proj_case(rng, tier, ci, ties):
         for k in range(1, d):
             if Pz.R[k] > 2 * x.R[k]:
                 return "rank %d at bond %d exceeds twice the rank %d of x" % (Pz.R[k], k, x.R[k])
+        # hypotheses of the Lean theorems proj_idempotent / proj_fixed on the gauges the run actually used:
+        # all left cores but the last left-orthonormal, all right cores but the first right-orthonormal, equal rank profiles
+        cap = box["cap"]
+        if "l" in cap and "r" in cap:
+            ls, rs = cap["l"], cap["r"]
+            if [c.shape[0] for c in ls] != [c.shape[0] for c in rs] or [c.shape[-1] for c in ls] != [c.shape[-1] for c in rs]:
+                return "left and right gauges have different rank profiles"
+            for k in range(d - 1):
+                U = ls[k].reshape(-1, ls[k].shape[-1])
+                e = float((U.T @ U - tn.eye(U.shape[1], dtype=U.dtype)).abs().max())
+                if e > 1e-9:
+                    return "gauge hypothesis LeftOrthInit fails at core %d (|LᵀL - I| = %.3g)" % (k, e)
+            for k in range(1, d):
+                V = rs[k].reshape(rs[k].shape[0], -1)
+                e = float((V @ V.T - tn.eye(V.shape[0], dtype=V.dtype)).abs().max())
+                if e > 1e-9:
+                    return "gauge hypothesis RightOrthTail fails at core %d (|RRᵀ - I| = %.3g)" % (k, e)
         nz = nrm(z) + nrm(w) + 1e-300
         # linear
         a, b = 1.5, -0.75
